@@ -18,7 +18,9 @@ FnFrom(T) == "Copy" \o T \o "FromTerraform"
 FnTo(T) == "Copy" \o T \o "ToTerraform"
 ThreeOf(T) == {FnSchema(T), FnFrom(T), FnTo(T)}
 
-TopFuncs(gen) == {gen.funcs[i].name : i \in {j \in DOMAIN gen.funcs : ~gen.funcs[j].method}}
+\* the functions the properties speak about: top-level functions named GenSchema<T>, Copy<T>FromTerraform or
+\* Copy<T>ToTerraform (classified by the harness: `api`); unexported helpers of the shared code are nobody's business
+TopFuncs(gen) == {gen.funcs[i].name : i \in {j \in DOMAIN gen.funcs : gen.funcs[j].api}}
 FuncNamed(gen, n) == gen.funcs[CHOOSE i \in DOMAIN gen.funcs : gen.funcs[i].name = n]
 
 \* selected types of the generated file that can be built whole
